@@ -72,7 +72,7 @@ def run(ctx):
     for cfg, part, depth, n in sims:
         if not ctx.want(part):
             continue
-        sim = ctx.tlc("db", "Refs", cfg, simulate=(n if q else 25 * n), depth=depth + 3, workers=4,
+        sim = ctx.tlc("db", "Refs", cfg, simulate=(n if q else 15 * n), depth=depth + 3, workers=4,
                       constants={"MaxOps": depth}, timeout=(600 if q else 3000))
         ctx.account(sim)
         ctx.log("%s: %d walks" % (cfg, len(sim.emitted)))
